@@ -211,4 +211,4 @@ def enumerate_cases(tier):
 
 
 def budget(tier):
-    return {"examples": 1200, "shards": 1} if tier == "quick" else {"examples": 10000, "shards": 16}
+    return {"examples": 3000, "shards": 1} if tier == "quick" else {"examples": 10000, "shards": 16}
